@@ -61,7 +61,7 @@ EdgeRef edge_ref(int kind, double a, double f, const Vtx& p, const Vtx& q, bool 
     azi1 = o.azi1; s12 = o.s12; a12 = o.a12;
   }
   L circ = (L)a12 / 90;
-  r.tolp = 2 * doc_tol(solver, a, f) * (1 + circ);
+  r.tolp = kdoc(solver, a, f) * (1 + circ);
   ref::OdeResult R = ode.direct(p.lat, p.lon, azi1, s12, 0, 0.01L * r.tolp);
   if (!(R.err <= 0.05L * r.tolp)) { r.ok = false; r.why = "reference not converged"; return r; }
   // closest approach to the axis is |Lz| (Clairaut) if the edge reaches it: then the longitude swings by ~180 deg
@@ -191,7 +191,7 @@ Verdict check_hist(const J& r) {
         double la, lo; poly.CurrentPoint(la, lo);
         // the new vertex must be the end of the edge (reference: ODE / rhumb direct)
         if (kind != 2) {
-          L tolp = 2 * doc_tol(kind, a, f) * (1 + std::fabs(s) / (M_PI / 2 * std::min(E.a, E.b)));
+          L tolp = kdoc(kind, a, f) * (1 + std::fabs(s) / (M_PI / 2 * std::min(E.a, E.b)));
           ref::OdeResult R = ref::Ode(E).direct(verts.back().lat, verts.back().lon, az, s, 0, 0.01L * tolp);
           L p[3]; ref::to_cart(E, la, lo, p);
           if (R.err <= 0.05L * tolp) v.le(ref::dist3(p, R.r), tolp + 2.3e-16L * fabsl((L)lo) * ref::DEG_L * E.a, "AddEdge: new current point vs ODE end point [m]");
